@@ -352,6 +352,26 @@ pub fn compare_restore(
         }
         // C06: the next execution gets an instance id above every recorded one
         let core_task = core.tasks.iter().find(|x| tkey(x.id) == k);
+        // (the scheduler silently drops a dependency on a task it does not know yet: the order in
+        // which the restored submits are handed over matters)
+        if let Some(ct) = core_task
+            && got == want
+        {
+            let mut kept: Vec<TaskKey> = ct.deps.iter().map(|d| tkey(*d)).collect();
+            kept.sort();
+            if kept != want {
+                fnd(
+                    out,
+                    "C10",
+                    "restored-dependencies",
+                    "dropped-by-the-scheduler",
+                    format!(
+                        "task {k:?}: handed to the scheduler with its unfinished dependencies {want:?}, the scheduler keeps {kept:?}"
+                    ),
+                    step,
+                );
+            }
+        }
         if let Some(ct) = core_task {
             if let Some(max) = rt.started_instances.iter().max()
                 && ct.instance_id.as_num() <= *max
